@@ -449,6 +449,13 @@ impl Property for C05 {
                     }
                     "float" => {
                         let Some(Fact::Float { bits: cb, .. }) = c_facts.get(&format!("f {}", m.name)) else { continue };
+                        // known finding "redefinition": the macro itself keeps its first (integer)
+                        // definition; what matters here are the macros defined after it
+                        if m.redefined {
+                            out.excluded_known += 1;
+                            out.class("macro:int-then-float (the macro itself is the known redefinition class)");
+                            continue;
+                        }
                         let Some(Fact::Float { bits: rb, .. }) = rf.get(&format!("f {}", m.name)) else {
                             out.fail("macro-kind/float", ctx(&format!("`{}` is a float in C, emitted as {:?}", m.name, rf.get(&format!("i {}", m.name)))));
                             continue;
